@@ -289,7 +289,7 @@ func (c *Ctx) checkFinishedSite(r *Report, rule, key string, fs finishedSite) {
 			continue
 		}
 		nExit++
-		if k, ok := constInt(unspill(ret.Results[0])); ok {
+		for _, k := range flightConstsOf(unspill(ret.Results[0]), 0) {
 			for name, v := range c.enumConsts(pkgF12, "Flight") {
 				if v == k {
 					slots[name] = true
@@ -371,4 +371,52 @@ func sameValue(a, b ssa.Value) bool {
 		}
 	}
 	return strip(a) == strip(b)
+}
+
+// flightConstsOf: the non-zero flight constants a returned value can be, following tail calls
+// into module helpers.
+func flightConstsOf(v ssa.Value, d int) []int64 {
+	if k, ok := constInt(v); ok {
+		if k != 0 {
+			return []int64{k}
+		}
+		return nil
+	}
+	if d > 3 {
+		return nil
+	}
+	var call *ssa.Call
+	idx := 0
+	switch x := v.(type) {
+	case *ssa.Extract:
+		call, _ = x.Tuple.(*ssa.Call)
+		idx = x.Index
+	case *ssa.Call:
+		call = x
+	case *ssa.Phi:
+		var out []int64
+		if d > 3 {
+			return nil
+		}
+		for _, e := range x.Edges {
+			if e != ssa.Value(x) {
+				out = append(out, flightConstsOf(e, d+1)...)
+			}
+		}
+		return out
+	}
+	if call == nil {
+		return nil
+	}
+	callee := call.Call.StaticCallee()
+	if callee == nil || callee.Blocks == nil {
+		return nil
+	}
+	var out []int64
+	for _, b := range callee.Blocks {
+		if ret, ok := b.Instrs[len(b.Instrs)-1].(*ssa.Return); ok && idx < len(ret.Results) {
+			out = append(out, flightConstsOf(unspill(ret.Results[idx]), d+1)...)
+		}
+	}
+	return out
 }
